@@ -608,6 +608,9 @@ pub fn run(prop: u8, tier: &str) -> Report {
         let (n, v) = crate::checks::longlists::uncompact_repeats(tier);
         g.sink.extend(v);
         rep.set("lists_with_repeats_evaluated", json!(n));
+        let (n, v) = crate::checks::longlists::call_ladders("C09/after-many-calls", &["uncompact"]);
+        g.sink.extend(v);
+        rep.set("call_ladder_calls", json!(n));
         let (n, v) = crate::checks::longlists::collision_circuits(tier, "C09/after-call");
         g.sink.extend(v);
         rep.set("call_pairs_on_one_thread", json!(n));
@@ -619,6 +622,16 @@ pub fn run(prop: u8, tier: &str) -> Report {
         g.sink.extend(v);
         rep.set("long_run_inputs_evaluated", json!(n));
         rep.set("longest_list", json!(longest));
+        {
+            let (n, v) = crate::checks::longlists::call_ladders(if prop == 8 { "C08/after-many-calls" } else { "C10/after-many-calls" }, &["compact"]);
+            g.sink.extend(v);
+            rep.set("call_ladder_calls", json!(n));
+        }
+        if prop == 8 {
+            let (n, v) = crate::checks::longlists::compact_cardinality(tier);
+            g.sink.extend(v);
+            rep.set("cardinality_coincidence_sets_evaluated", json!(n));
+        }
         let (n, v) = crate::checks::longlists::compact_alias(prop, tier);
         g.sink.extend(v);
         rep.set("stride_alias_sets_evaluated", json!(n));
